@@ -332,7 +332,10 @@ def evaluate__exp(self: XPathFunction, context: ta.ContextType = None) -> ta.One
     arg: ta.NumericType = self.get_argument(self.context or context, cls=NumericProxy)
     if arg is None:
         return []
-    return math.exp(arg)
+    try:
+        return math.exp(arg)
+    except OverflowError:
+        return math.inf
 
 
 @method(function('exp10', prefix='math', nargs=1, sequence_types=('xs:double?', 'xs:double?')))
@@ -340,7 +343,12 @@ def evaluate__exp10(self: XPathFunction, context: ta.ContextType = None) -> ta.O
     arg: ta.NumericType = self.get_argument(self.context or context, cls=NumericProxy)
     if arg is None:
         return []
-    return float(10 ** arg)
+    try:
+        if isinstance(arg, int) and abs(arg) < 400:
+            return float(10 ** arg)  # correctly rounded
+        return float(10.0 ** float(arg))
+    except OverflowError:
+        return math.inf
 
 
 @method(function('log', prefix='math', nargs=1, sequence_types=('xs:double?', 'xs:double?')))
@@ -376,6 +384,8 @@ def evaluate__pow(self: XPathFunction, context: ta.ContextType = None) -> ta.One
         return float(x ** y)
     except TypeError:
         return math.nan
+    except OverflowError:
+        return math.inf if x > 0 or y % 2 == 0 else -math.inf
 
 
 @method(function('sqrt', prefix='math', nargs=1,
